@@ -19,7 +19,7 @@ META = dict(
     level='proof',
     technique='Coq proof (date reader/formatter model against the Gregorian calendar: round trips, soundness of acceptance, weekday, order) + differential correspondence of the extracted model against ledger, exhaustive over 1900..2199 in every accepted spelling',
     level_text='Theorems in coq/Properties/Properties_C14.v state, for all dates of boost\'s range 1400..9999 and all strings, that the model of parse_date (reader list regenerated from times.cc, separator rewriting, glibc strptime for %Y %m %d %y, boost date construction, re-format-and-compare, year inference) accepts every accepted spelling of a valid date as exactly that day, accepts nothing that does not spell a valid date (month 13, day 32, 30 February, 29 February of a non-leap year, trailing characters are errors), that formatting a read date gives the same day, that weekday and order are those of the Gregorian calendar, and that day number <-> civil date conversions are inverse bijections. The model is tied to the code by reading every day 1900-01-01..2199-12-31 in six spellings, every impossible month/day for leap, non-leap and century years, MM/DD under year directives and --now, range ends, malformed strings and random --input-date-format/--date-format pairs both in freshly built ledger and in the extracted model.',
-    level_note='Trusted: Coq kernel; extraction + OCaml driver and the python harness for the correspondence; glibc strptime/strftime modelled for the numeric directives (%Y %m %d %e %y %j %u %w, names %a %A %b %B in the C locale) and validated differentially; boost::gregorian date construction, day numbers and month arithmetic transcribed in Base/Calendar.v and proved equal to the era-based calendar. The MM/DD form is only exact under a year directive (or when the current month is not before the date\'s month); see finding F32.',
+    level_note='Trusted: Coq kernel; extraction + OCaml driver and the python harness for the correspondence; glibc strptime/strftime modelled for the numeric directives (%Y %m %d %e %y %j %u %w, names %a %A %b %B in the C locale) and validated differentially; boost::gregorian date construction, day numbers and month arithmetic transcribed in Base/Calendar.v and proved equal to the era-based calendar. A year-less MM/DD later in the year than today is taken from the previous year (same month and day; 29 February then has no counterpart and is an error).',
     design_ref='DESIGN.md section 7 C14, section 6.5',
     assumptions=['TZ=UTC, LC_ALL=C (weekday and month names)',
                  'date strings contain no white space when written as transaction dates (the journal tokenizer cuts there)',
@@ -286,7 +286,7 @@ def judge_tx(t, impl, field_of=None):
                 if j and j[0] == 'other-day' and ds.kind == 'md-now' and k in ('xd', 'pd') and want[1:] == (2, 28):
                     p = parse_outf(f[0] if k == 'xd' else f[2])
                     if p and (p[0], p[1], p[2]) == (want[0], 2, 29):
-                        # the specific class of finding F32; any other shift keeps the generic key
+                        # the class of the repaired defect F32 (/repo 9c78ad5); any other shift keeps the generic key
                         j = ('feb-28-becomes-feb-29-of-previous-leap-year', j[1])
                 if j:
                     out.append(('shifted:%s:%s' % (ds.kind, j[0]), '%r read as a date prints as %r' % (ds.s, f), '|'.join(f), j[1]))
@@ -435,17 +435,20 @@ def g_malformed(ctx, rng, n):
 
 
 def md_intent(cur, m, d, under_directive):
-    """what MM/DD means: the property text covers the form under a year directive: that day of
-    that year.  Without a directive the year comes from today's date (--now): the same month and
-    day in the current year, or in the previous year when the month is later than today's."""
+    """what MM/DD means: that month and day of the current year (always so under a year directive,
+    which makes 31 December the current date), or - without a directive, when the month is later
+    than today's - of the previous year."""
     cy, cm, cd = cur
     y = cy if (under_directive or m <= cm) else cy - 1
     if not (1 <= m <= 12 and 1 <= d <= 31):
         return ('reject', 'month-%d' % m if not 1 <= m <= 12 else 'day-%d' % d)
-    if not py_valid(cy, m, d):
-        # the date does not exist in the current year: rejected by ledger before any inference
-        return ('reject', 'day-%d-of-month-%d-%s' % (d, m, 'leap' if is_leap(cy) else 'nonleap')) if under_directive else None
     if not py_valid(y, m, d):
+        # the day does not exist in the year the string denotes (30 February; 29 February of a
+        # non-leap year)
+        return ('reject', 'day-%d-of-month-%d-%s' % (d, m, 'leap' if is_leap(y) else 'nonleap'))
+    if not py_valid(cy, m, d):
+        # 29 February of the previous (leap) year written in January/February of a non-leap year:
+        # ledger builds the date in the current year first and refuses it; the text is silent
         return None
     if not 1400 <= y <= 9999:
         return None
@@ -733,7 +736,7 @@ def run(ctx, small=False):
     groups += g_impossible(ctx, rng, years if not small else years[:4])
     groups += g_malformed(ctx, rng, ctx.scale(2500, 20000))
     groups += g_md_directive(ctx, rng, [2020, 2021, 1900, 2000, 1400, 9999] + [rng.randrange(1400, 10000) for _ in range(ctx.scale(2, 20))])
-    groups += g_md_now(ctx, rng, [NOW, (2021, 1, 15), (2020, 2, 29), (2021, 12, 31), (2021, 3, 1), (1400, 1, 15), (2024, 1, 31), (2100, 2, 28)]
+    groups += g_md_now(ctx, rng, [NOW, (2021, 1, 15), (2020, 2, 29), (2021, 12, 31), (2021, 3, 1), (1400, 1, 15), (2024, 1, 31), (2100, 2, 28), (2025, 1, 15), (2024, 2, 1), (2001, 1, 1), (2000, 1, 31), (1401, 1, 1)]
                        + [(lambda y, m: (y, m, rng.randrange(1, dim(y, m) + 1)))(rng.randrange(1401, 10000), rng.randrange(1, 13)) for _ in range(ctx.scale(2, 12))])
     groups += g_custom(ctx, rng, ctx.scale(150, 1500), 30)
     run_groups(ctx, res, groups)
